@@ -354,7 +354,7 @@ def run_entry(args):
         total *= len(cs)
     # keep the cross product tractable in the quick tier: thin the interior cells of non-ordered arguments
     cap = 4000 if tier == "quick" else 30000
-    for _round in range(3):
+    for _round in range(1 if tier == "quick" else 3):
         total = 1
         for cs in cellsets:
             total *= len(cs)
